@@ -54,6 +54,14 @@ func (g *c12Gen) node(d int) *snode {
 	if d <= 0 && k >= 3 {
 		k = g.rg.intn(3)
 	}
+	if k == 9 && g.rg.chance(1, 2) {
+		// two pairs: the second reads the name the first rebinds - it sees the OUTER binding
+		name := g.rg.pick(c12Names)
+		n2 := g.rg.pick(c12Names)
+		if n2 != name {
+			return &snode{kind: "with2", name: name, val: g.lit(), file: n2, kids: g.body(d - 1)}
+		}
+	}
 	if k == 10 {
 		// nothing to iterate: the empty branch runs, in the loop's own scope
 		return &snode{kind: "forempty", kids: g.body(d - 1)}
@@ -115,6 +123,8 @@ func c12Print(ns []*snode) string {
 			sb.WriteString("{% for " + n.name + " in [\"" + n.val + "x\", \"" + n.val + "y\"] %}" + c12Print(n.kids) + "{% endfor %}")
 		case "if":
 			sb.WriteString("{% if true %}" + c12Print(n.kids) + "{% endif %}")
+		case "with2":
+			sb.WriteString("{% with " + n.name + "=\"" + n.val + "\" " + n.file + "=" + n.name + " %}" + c12Print(n.kids) + "{% endwith %}")
 		case "forempty":
 			sb.WriteString("{% for zq in el %}never{% empty %}" + c12Print(n.kids) + "{% endfor %}")
 		case "sortloop":
@@ -206,6 +216,13 @@ func c12Run(ns []*snode, e *c12Env, refs map[*c12Macro]*c12MacroRef, out *string
 			e.pop()
 		case "if":
 			c12Run(n.kids, e, refs, out)
+		case "with2":
+			outer := e.lookup(n.name)
+			e.push(e.top(), e.mscope[len(e.mscope)-1])
+			e.top()[n.name] = n.val
+			e.top()[n.file] = outer
+			c12Run(n.kids, e, refs, out)
+			e.pop()
 		case "forempty":
 			e.push(e.top(), e.mscope[len(e.mscope)-1])
 			c12Run(n.kids, e, refs, out)
@@ -289,6 +306,13 @@ func runC12(r *run) {
 			{"{{ a }}", gctx{{"k-ey", gInt(1)}}, "xerr"},
 			{"{{ a }}", gctx{{"", gInt(1)}}, "xerr"},
 			{"{{ a }}", gctx{{"ok_1", gInt(1)}}, obsOK("GA")},
+			{"{{ a }}", gctx{{"größe", gInt(1)}}, "xerr"},
+			{"{{ a }}", gctx{{"名前", gInt(1)}}, "xerr"},
+			{"{{ a }}", gctx{{"n٣", gInt(1)}}, "xerr"},
+			{"{{ a }}", gctx{{"ａ", gInt(1)}}, "xerr"},
+			{"{{ a }}", gctx{{"a.b", gInt(1)}}, "xerr"},
+			{"{{ a }}", gctx{{"a\n", gInt(1)}}, "xerr"},
+			{"{{ a }}", gctx{{"_A9", gInt(1)}}, obsOK("GA")},
 			{"{% macro mm() export %}x{% endmacro %}{{ mm() }}", gctx{{"mm", gInt(1)}}, "xerr"},
 			{"{% macro mm() export %}x{% endmacro %}{{ mm() }}", gctx{{"zz", gInt(1)}}, obsOK("x")},
 			{"{% macro mm() %}x{% endmacro %}{{ mm() }}", gctx{{"mm", gInt(1)}}, obsOK("x")},
